@@ -57,3 +57,9 @@ cfg('gen4_t', extra_lines=GEN, inv=['Inv_Conservation'], **dict(C07NLA, Sites='{
 PLAIN5 = dict(Kind='"plain"', CacheSize=6, Strands='{0}', Sites='{0,2}', Lens='{1, 3}', Umis='{0, 1, 6}', MaxFrags=5, Scheds='{1000, 0}', Poolings='{0, 1}')
 cfg('c07plain5_t', **PLAIN5)
 cfg('genplain5_t', extra_lines=GEN, inv=['Inv_Conservation'], **dict(PLAIN5, Scheds='{0}', Poolings='{0}'))   # the driver runs both pooling methods
+
+# a tie (fragment accepted by two open molecules: end of the older, start of the newer) after an ejection that happens while
+# both are open: the survivors must keep their order.  plain, cache 4, check_eject_every = 2
+TIE = dict(Kind='"plain"', CacheSize=4, Strands='{0}', Sites='{0,1,2,3}', Lens='{1, 2}', Umis='{0}', MaxFrags=4, Poolings='{0}')
+cfg('c07tie_q', **dict(TIE, Scheds='{1000, 2}', Poolings='{0, 1}'))
+cfg('gentie_q', extra_lines=GEN, inv=['Inv_Conservation'], **dict(TIE, Scheds='{2}'))
